@@ -6,6 +6,7 @@ from several prior global states. Reference model = a dictionary of cloned Rando
 UNSEEDED TWIN of the model under the cloned state (no hand-written sampler).
 """
 import numpy as np
+import pandas as pd
 
 from mc import engine, seq, zoo
 
@@ -58,6 +59,11 @@ def cases(tier, seed):
             out.append(('seq', spec, sf, 3 if tier == 'quick' else 4))
     for k in range(11):
         out.append(('datasets', k, '', 0))
+    # one very large request followed by a small one (requests above 1e5 rows must advance the stream like any other)
+    for spec in (('uni', ('gaussian',), ('normal', 0.0, 1.0, 30)), ('biv', 'clayton', 2.0),
+                 ('gm', 'gaussian-class', zoo.GM_TABLES[2])):
+        for sf in ('int0', 'rs7'):
+            out.append(('big-call', spec, sf, 0))
     out.sort(key=lambda c: (c[0] != 'seq', c[0] != 'seq' or c[1][0] != 'vine', c[0] != 'seq' or c[1][0] not in ('gm', 'gm-cond')))
     return out
 
@@ -90,6 +96,8 @@ def run_case(case):
     r = engine.new_result()
     if kind == 'datasets':
         return _datasets(r, case)
+    if kind == 'big-call':
+        return _big_call(r, case)
     _, spec, sf, depth = case
     if spec[0] == 'vine':
         depth = min(depth, 2)
@@ -242,6 +250,44 @@ def _s(v):
     return s if len(s) < 140 else s[:137] + '...'
 
 
+def _big_call(r, case):
+    _, spec, sf, _ = case
+    n_big = 100001 if spec[0] != 'biv' else 20001          # the bivariate sampler solves one root per row
+    streams = []
+    for twin in (0, 1):
+        rs = {'int0': 0, 'rs7': np.random.RandomState(7)}[sf]
+        m = _build(spec, rs)
+        np.random.seed(5)
+        g0 = gstate()
+        r.tr(3)
+        big = np.asarray(m.sample(n_big), float)
+        small = np.asarray(m.sample(3), float)
+        small2 = np.asarray(m.sample(3), float)
+        if gstate() != g0:
+            r.violation(f'C15:{spec[0]}:big-call:global-state-perturbed', f'{spec} seed={sf}: sample({n_big}) changed the global '
+                        f'generator', case=case)
+        streams.append((big, small, small2))
+    r.ev(2)
+    r.nontriv()
+    r.state(('big-call', spec, sf))
+    (b0, s0, t0), (b1, s1, t1) = streams
+    if len(b0) != n_big or not (np.array_equal(b0, b1, equal_nan=True) and np.array_equal(s0, s1, equal_nan=True)
+                                and np.array_equal(t0, t1, equal_nan=True)):
+        r.violation(f'C15:{spec[0]}:big-call:twins-differ', f'{spec} seed={sf}: two equal models with the same seed differ after a '
+                    f'sample({n_big}) call', case=case)
+    if np.array_equal(s0, b0[:3], equal_nan=True) or np.array_equal(s0, t0, equal_nan=True):
+        r.violation(f'C15:{spec[0]}:big-call:stream-not-advanced', f'{spec} seed={sf}: the sample(3) after sample({n_big}) repeats '
+                    f'{"the first rows of the large sample" if np.array_equal(s0, b0[:3], equal_nan=True) else "itself"}: the '
+                    f'stream did not advance', case=case)
+    fresh = _build(spec, {'int0': 0, 'rs7': np.random.RandomState(7)}[sf])
+    if np.array_equal(np.asarray(fresh.sample(3), float), s0, equal_nan=True):
+        r.violation(f'C15:{spec[0]}:big-call:stream-not-advanced', f'{spec} seed={sf}: after sample({n_big}) the model samples '
+                    f'like a freshly seeded model', case=case)
+    r.hit('big-call')
+    r['sample'] = {'kind': 'big call', 'spec': str(spec), 'seed_form': sf, 'rows': n_big}
+    return r
+
+
 def _datasets(r, case):
     import copulas.datasets as D
     names = ['sample_bivariate_age_income', 'sample_trivariate_xyz', 'sample_univariate_bernoulli',
@@ -275,6 +321,22 @@ def _datasets(r, case):
             if len(outs) == 3 and not (seq.values_equal(outs[0], outs[1]) and seq.values_equal(outs[0], outs[2])):
                 r.violation(f'C15:datasets:{names[k]}:not-deterministic', f'{names[k]}(size={size}, seed={sd}) depends on the '
                             f'prior global state', case=case)
+            elif len(outs) == 3 and size >= 2:
+                # ... and does not depend on what a caller did to an earlier result (results are not shared objects)
+                import copy as _copy
+                keep = _copy.deepcopy(outs[0])
+                try:
+                    if isinstance(outs[2], pd.DataFrame):
+                        outs[2].iloc[:, :] = -12345.0
+                    else:
+                        outs[2].iloc[:] = -12345.0
+                except Exception:
+                    pass
+                r.tr()
+                again = zoo.attempt(fn, size, sd) if k != 10 else zoo.attempt(lambda: fn(size=size, seed=sd))
+                if not seq.values_equal(again, keep):
+                    r.violation(f'C15:datasets:{names[k]}:not-deterministic:result-shared', f'{names[k]}(size={size}, seed={sd}) '
+                                f'returns different values after a caller overwrote an earlier result in place', case=case)
     r.nontriv()
     r.hit('datasets')
     r['sample'] = {'generator': names[k], 'sizes': [1, 2, 10, 1000], 'seeds': [0, 42, 2 ** 32 - 1]}
